@@ -63,7 +63,7 @@ pub fn snapshot(root: &Path) -> Snapshot {
                 out.insert(rel, Entry::Dir);
                 walk(root, &p, out);
             } else if ft.is_file() {
-                out.insert(rel, Entry::File(Arc::new(std::fs::read(&p).unwrap_or_default())));
+                out.insert(rel, Entry::File(intern(std::fs::read(&p).unwrap_or_default())));
             } else {
                 out.insert(rel, Entry::Other);
             }
@@ -72,6 +72,24 @@ pub fn snapshot(root: &Path) -> Snapshot {
     let mut out = Snapshot::new();
     walk(root, root, &mut out);
     out
+}
+
+/// equal file contents share one allocation across all snapshots
+pub fn intern(bytes: Vec<u8>) -> Arc<Vec<u8>> {
+    static POOL: std::sync::LazyLock<Mutex<std::collections::HashMap<u64, Vec<Arc<Vec<u8>>>>>> = std::sync::LazyLock::new(Default::default);
+    let h = crate::common::fnv(&bytes);
+    let mut pool = POOL.lock().unwrap();
+    let bucket = pool.entry(h).or_default();
+    if let Some(a) = bucket.iter().find(|a| ***a == bytes) {
+        return a.clone();
+    }
+    let a = Arc::new(bytes);
+    bucket.push(a.clone());
+    a
+}
+
+pub fn rss_bytes() -> u64 {
+    std::fs::read_to_string("/proc/self/statm").ok().and_then(|s| s.split_whitespace().nth(1).and_then(|x| x.parse::<u64>().ok())).map_or(0, |pages| pages * 4096)
 }
 
 pub fn materialise(snap: &Snapshot, root: &Path) {
